@@ -153,7 +153,7 @@ class Rec:
         kind, idx = self.cur if self.cur else ('?', -1)
         rdir = os.path.join(VERIF, 'replays', self.pid)
         os.makedirs(rdir, exist_ok=True)
-        name = '%s-%s-%s-s%d-%d.json' % (self.pid, kind, idx, self.seed, n)
+        name = '%s-%s-%s-s%d-%s-%d.json' % (self.pid, kind, idx, self.seed, mech.replace('.', '_'), n)
         name = name.replace('/', '_').replace(' ', '')
         path = os.path.join(rdir, name)
         doc = {'property': self.pid, 'mech': mech, 'what': what, 'tier': self.tier,
